@@ -1340,6 +1340,13 @@ impl TensorStore {
 
         // Clear current and copy data from new router
         self.router.clear();
+
+        // Table rows and schemas live in the relational slab, not under keys, so the
+        // key-by-key copy below does not carry them: restore that slab as a whole.
+        self.router
+            .relations
+            .replace_with(new_router.relations.snapshot());
+
         for key in new_router.scan("") {
             if let Ok(value) = new_router.get(&key) {
                 // Best-effort restore - continue even if individual entries fail
